@@ -224,6 +224,7 @@ func c02Cfg(rng *rand.Rand, up4 bool) hCfg {
 		}
 	}
 	c.ShufflePDI = rng.Intn(2) == 0
+	c.ReuseSeq = true
 	c.Seqs = func(r *rand.Rand) uint32 {
 		switch r.Intn(8) {
 		case 0:
